@@ -1,4 +1,6 @@
 mod c01;
+mod c04;
+mod c04w;
 mod c07;
 mod c12;
 mod c14;
@@ -116,6 +118,11 @@ fn run_check(id: &str, tier: Tier) -> i32 {
             r.parts.push(c01::part_c05(tier));
             finish(r)
         }
+        "C04" => {
+            let mut r = Report::new("C04", tier, "exploration");
+            r.parts.push(c04::part_sweep(tier));
+            finish(r)
+        }
         "C07" => {
             let mut r = Report::new("C07", tier, "exploration");
             r.parts.push(c07::part_parse(tier));
@@ -184,6 +191,7 @@ fn replay(path: &str) -> i32 {
         "e2e" => e2x::replay(rp),
         "dap" => dapx::replay(rp),
         "c15" => c15::replay(rp),
+        "c04" => c04::replay(rp),
         e => {
             eprintln!("no replay handler for engine {e:?}");
             2
